@@ -84,7 +84,7 @@ CHECKS.update({
    "Every word of < 4 (5) position/ucinewgame lines over a 27-line alphabet (and of that length with a last line from a 14-line core) of extending, repeating, shortening and prefix-colliding commands - incl. lines that play on after a claimable draw, FENs differing only in letter case or clocks, a white-space variant and promotion move lists - is fed to a real uci.Driver (isready/readyok hand-shake); the engine's position, counters, draw state and full board snapshot must equal those of the reference game of the last command alone and of a fresh driver given only that command, and continuations on a fork must report draws exactly where the reference game does.",
    "Bounded by word length and alphabet (three games); the alphabet validates its own lines at start.", "DESIGN.md §5 C10"),
  "C18": ("seq", "model_checking", "exhaustive case grids (sequential half) + stateless exploration with function-entry scheduling points (concurrent half)",
-   "Sequential: every (root, depth, configuration) twice / after other searches on the same Search value / under five hash seeds / with noise from one seed must give identical (score, PV, nodes); engine operation words leave the engine's game untouched across analyze/halt; engine words over the noise option: analyses reproducible from the seed and, with the option off, equal to those of a never-noisy engine with another hash seed. Concurrent: a build with a scheduling point at the entry of every non-trivial function of board/search/eval and the historical engines explores every schedule within the bound of two engines searching side by side (also sharing one Search value) and of a noisy analysis started right after halting another one, with a halt-instant grid and each engine goroutine in turn held back (slow-thread dimension); and of each historical engine alone on castling- and capture-rich roots with the iteration order of every `for range` over a map as an explored environment choice.",
+   "Sequential: every (root, depth, configuration) twice / after other searches on the same Search value / under five hash seeds / with noise from one seed must give identical (score, PV, nodes); engine operation words leave the engine's game untouched across analyze/halt; engine words over the noise and depth options (analyses with and without a depth of their own): analyses reproducible from the seed and, with noise off, equal to those of a fresh never-noisy engine with another hash seed for that game and depth. Concurrent: a build with a scheduling point at the entry of every non-trivial function of board/search/eval and the historical engines explores every schedule within the bound of two engines searching side by side (also sharing one Search value) and of a noisy analysis started right after halting another one, with a halt-instant grid and each engine goroutine in turn held back (slow-thread dimension); and of each historical engine alone on castling- and capture-rich roots with the iteration order of every `for range` over a map as an explored environment choice.",
    "Concurrent half: K v K roots, depth 1-2; interleavings inside math/rand and other non-morlock code are not explored.", "DESIGN.md §5 C18"),
 })
 
